@@ -401,9 +401,13 @@ func (r *cacheOnWriteReader) Read(p []byte) (int, error) {
 		}
 		r.bytesSeen += int64(n)
 		if r.bytesSeen > r.maxObjectSizeBytes {
-			_ = r.pipeWriter.CloseWithError(errObjectLargerThanCacheThreshold)
-			r.pipeWriter = nil
-			r.cachePipeActive = false
+			// Every read past the threshold comes here again: the pipe was closed
+			// (and the writer dropped) by the first one.
+			if r.pipeWriter != nil {
+				_ = r.pipeWriter.CloseWithError(errObjectLargerThanCacheThreshold)
+				r.pipeWriter = nil
+				r.cachePipeActive = false
+			}
 		} else if r.pipeWriter != nil {
 			if _, writeErr := r.pipeWriter.Write(p[:n]); writeErr != nil {
 				_ = r.pipeWriter.CloseWithError(writeErr)
